@@ -415,7 +415,17 @@ def gen_api(rng):
             "population": rng.choice([None, None, 1000, 12345]), "min_base": rng.choice([0, 0, 0, 5, 30]),
             "with_set": rng.random() < 0.5, "ncubes": rng.choice([1, 2, 2]),
             "mrins": rng.random() < 0.35, "holes": rng.random() < 0.2, "numeric_all": rng.random() < 0.3,
-            "pairwise": rng.choice([None, 0.05, 0.3, [0.1, 0.45]])}
+            "pairwise": rng.choice([None, 0.05, 0.3, [0.1, 0.45]]), "measures": rng.random() < 0.3}
+
+
+def gen_waves(rng):
+    """one transforms dict with id-less subtotal insertions, re-used for two waves of the same question whose valid
+    categories differ (see `reuse_check`)"""
+    kinds = rng.choice([["cat"], ["cat"], ["cat", "cat"], ["cat", "mr"], ["mr", "cat"], ["cat", "cat", "cat"]])
+    return {"t": "api", "kinds": kinds, "seed": rng.randrange(1 << 30), "nsched": rng.randint(6, 12),
+            "population": rng.choice([None, 1000]), "min_base": 0, "with_set": False, "ncubes": rng.choice([1, 2]),
+            "mrins": False, "holes": False, "numeric_all": False, "no_missing": True, "waves": True, "pairwise": None,
+            "measures": False}
 
 
 def gen_scale(rng):
@@ -425,7 +435,8 @@ def gen_scale(rng):
                         ["cat", "cat", "cat"]])
     return {"t": "api", "kinds": kinds, "seed": rng.randrange(1 << 30), "nsched": rng.randint(15, 30),
             "population": rng.choice([None, 1000]), "min_base": 0, "with_set": rng.random() < 0.3, "ncubes": 1,
-            "mrins": False, "holes": True, "numeric_all": True, "focus": "scale", "no_missing": rng.random() < 0.7}
+            "mrins": False, "holes": True, "numeric_all": True, "focus": "scale", "no_missing": rng.random() < 0.7,
+            "measures": rng.random() < 0.5}
 
 
 def api_build(case):
@@ -434,7 +445,7 @@ def api_build(case):
     vars_ = []
     ins_items = {}
     for i, k in enumerate(case["kinds"]):
-        v = gen.gen_var(rng, k, "v%d" % i, n=rng.randint(2, 4), min_valid=2,
+        v = gen.gen_var(rng, k, "v%d" % i, n=rng.randint(3, 4) if case.get("waves") else rng.randint(2, 4), min_valid=2,
                         numeric="all" if case.get("numeric_all") else "some",
                         allow_missing=not case.get("no_missing"))
         if k == "mr" and case.get("mrins") and len(v.items) >= 2:
@@ -447,7 +458,16 @@ def api_build(case):
         vars_.append(v)
     weighted = rng.random() < 0.5 or bool(case.get("holes"))
     survey = gen.gen_survey(rng, vars_, n_resp=rng.randint(8, 40), weighted=weighted)
-    resp = gen.cube_response(vars_, survey, True)
+    extra = None
+    if case.get("measures"):
+        ncell = 1
+        for x in gen.raw_shape(vars_):
+            ncell *= x
+        vals = [0.5, 1, 1.5, 2.25, 3, 4.5, 7, 10.75]
+        extra = {m: [rng.choice(vals) + (i % 3) for i in range(ncell)] for m in ("mean", "sum", "stddev", "median")}
+        extra["valid_count_unweighted"] = [rng.randint(1, 9) for _ in range(ncell)]
+        extra["valid_count_weighted"] = [rng.choice(vals) for _ in range(ncell)]
+    resp = gen.cube_response(vars_, survey, True, extra_measures=extra)
     for alias, items in ins_items.items():
         shim_api.add_mr_insertions(resp, alias, items)
     if case.get("holes"):
@@ -496,9 +516,17 @@ def api_build(case):
                 t["elements"] = {str(rng.choice(ids)): {"hide": True}}
             if rng.random() < 0.3:
                 t["order"] = {"type": "explicit", "element_ids": rng.sample(ids, len(ids)) + [999]}
-            if k in ("cat",) and rng.random() < 0.4 and len(ids) >= 2:
-                t["insertions"] = [{"anchor": rng.choice(["top", "bottom", ids[0]]), "name": "Sub", "function": "subtotal",
-                                    "args": ids[:2], "kwargs": {"positive": ids[:2]}, "id": 1}]
+            if k in ("cat",) and (rng.random() < 0.5 or case.get("waves")) and len(ids) >= 2:
+                valid = [c["id"] for c in v.cats if not c["missing"]]
+                ins = [{"anchor": "bottom", "name": "Last only", "function": "subtotal", "args": [valid[-1]]},
+                       {"anchor": rng.choice(["top", "bottom", ids[0]]), "name": "Sub", "function": "subtotal",
+                        "args": ids[:2], "kwargs": {"positive": ids[:2]}},
+                       {"anchor": "top", "name": "Not a subtotal", "function": "other", "args": ids[:1]}]
+                ins = ins[:2] if case.get("waves") else ins[rng.choice([0, 0, 1]):rng.choice([2, 2, 3])]
+                if rng.random() < 0.5 and not case.get("waves"):   # explicit ids, or left to the library (it must not write them back)
+                    for j, d in enumerate(ins):
+                        d["id"] = j + 1
+                t["insertions"] = ins
         if rng.random() < 0.3:
             t["prune"] = True
         if t:
@@ -614,8 +642,9 @@ def eval_api(case, louts, ctx):
         for t in sweep_targets:
             names = list(reads_by_target[t])
             if case.get("focus") == "scale" and "." in t:
-                names = [n for n in names if "scale" in n or n in ("counts", "means", "rows_margin", "columns_margin",
-                                                                   "table_proportions", "unweighted_counts", "rows_base")]
+                names = [n for n in names if "scale" in n or n in ("counts", "means", "medians", "stddev", "sums", "rows_margin",
+                                                                   "columns_margin", "table_proportions", "unweighted_counts",
+                                                                   "rows_base", "smoothed_means")]
             rng.shuffle(names)
             # ... and "a first, then everything else": an in-place edit of a shared cached array by `a` only shows
             # when nothing that caches values derived from that array was read before it
@@ -660,12 +689,66 @@ def eval_api(case, louts, ctx):
     # a second partition of the SAME Cube object with OTHER transforms (CubePartition.factory) is a fresh evaluation too
     if nerr == 0 and not findings:
         findings += factory_check(case, resp0, tr0, objs, nparts, rng, desc)
+    if nerr == 0:
+        findings += reuse_check(case, resp0, tr0, rng, desc, ctx)
     kinds_key = tuple(case["kinds"])
     ctx.count("api-kinds:%s" % "x".join(case["kinds"]))
     ctx.count("api-nparts:%d" % nparts)
     arr = any(k in ("mr", "ca") for k in case["kinds"])
     key = (kinds_key, json.dumps(tr0), len(sched)) if arr and tr0 and (nparts > 1 or case["ncubes"] > 1) else None
     return findings, key
+
+
+def variant_response(resp0):
+    """the same question in another wave: in every plain categorical dimension the last valid category does not
+    exist (is missing) -- other valid categories, so other insertions are valid subtotals"""
+    resp = copy.deepcopy(resp0)
+    changed = False
+    for d in resp["result"]["dimensions"]:
+        t = d["type"]
+        if t.get("class") != "categorical" or d.get("references", {}).get("subreferences"):
+            continue
+        valid = [c for c in t["categories"] if not c.get("missing")]
+        if len(valid) >= 3:
+            valid[-1]["missing"] = True
+            changed = True
+    return resp if changed else None
+
+
+def reuse_check(case, resp0, tr0, rng, desc, ctx):
+    """ONE transforms dict used for two different cubes, in both orders; the second user must see what a fresh
+    evaluation on pristine copies sees"""
+    from cr.cube.cube import Cube
+    resp_b = variant_response(resp0)
+    if resp_b is None or not tr0:
+        return []
+    ctx.count("api-reuse-other-cube")
+    kw = dict(population=case["population"], mask_size=case["min_base"])
+    for first, second, tag in ((resp_b, resp0, "variant-then-original"), (resp0, resp_b, "original-then-variant")):
+        tr = copy.deepcopy(tr0)
+        try:
+            a = Cube(copy.deepcopy(first), transforms=tr, **kw)
+            for p in a.partitions:
+                for n in public_reads(p):
+                    read(p, n)
+            b = Cube(copy.deepcopy(second), transforms=tr, **kw)
+            ref = Cube(copy.deepcopy(second), transforms=copy.deepcopy(tr0), **kw)
+            bparts, rparts = b.partitions, ref.partitions
+        except Exception:  # noqa
+            continue
+        for k, (bp, rp) in enumerate(zip(bparts, rparts)):
+            names = public_reads(rp)
+            rng.shuffle(names)
+            names = [n for n in ("row_codes", "row_order()", "column_codes", "inserted_row_idxs", "row_labels") if n in names] + names[:30]
+            for n in names:
+                got, want = read(bp, n), read(rp, n)
+                ok, where = common.deep_close(got, want)
+                if not ok:
+                    return [F("spec", "api.reuse-other-cube.differs-from-fresh",
+                              "%s (%s): a transforms dict already used for another cube (other valid categories) gives "
+                              "partition %d .%s = %s, a fresh evaluation on pristine copies gives %s (%s); dict now %s" %
+                              (desc, tag, k, n, sc.jdump(got)[:160], sc.jdump(want)[:160], where, sc.jdump(tr)[:300]))]
+    return []
 
 
 def other_transforms(case, resp0, tr0, rng):
@@ -776,6 +859,7 @@ def eval_forms(case, louts, ctx):
                 findings.append(F("spec", "ro.raw_cube_array", "kinds=%s: %s.raw_cube_array accepted a write" % (case["kinds"], mname)))
             except (ValueError, IndexError):
                 pass
+    findings += lazy_slot_findings()
     # the lazyproperty descriptor is read-only
     try:
         cube.ndim = 99
@@ -783,6 +867,47 @@ def eval_forms(case, louts, ctx):
     except AttributeError:
         pass
     return findings, ("forms", tuple(case["kinds"]))
+
+
+_LAZY_SLOTS = None
+
+
+def lazy_slot_findings():
+    """structural form of "read order cannot matter": every lazyproperty caches under ITS OWN attribute name
+    (the cache key is the wrapped function's `__name__`); two properties sharing a slot return each other's value"""
+    global _LAZY_SLOTS
+    if _LAZY_SLOTS is None:
+        import inspect
+        import sys as _sys
+        from cr.cube.util import lazyproperty
+        out = []
+        for mname, mod in list(_sys.modules.items()):
+            if not mname.startswith("cr.cube") or mod is None:
+                continue
+            for cname, cls in inspect.getmembers(mod, inspect.isclass):
+                if getattr(cls, "__module__", "") != mname:
+                    continue
+                # all lazyproperty objects visible on the class (own + inherited, nearest definition wins)
+                seen = {}
+                for klass in cls.__mro__:
+                    for attr, val in vars(klass).items():
+                        if isinstance(val, lazyproperty) and attr not in seen:
+                            seen[attr] = val
+                slots = {}
+                for attr, val in seen.items():
+                    slots.setdefault(getattr(val, "__name__", attr), []).append((attr, val))
+                for slot, users in slots.items():
+                    distinct = []
+                    for attr, val in users:
+                        if not any(val is v for _, v in distinct):
+                            distinct.append((attr, val))      # `b = a` aliases of one property share a slot harmlessly
+                    if len(distinct) > 1:
+                        out.append(F("spec", "ro.lazyproperty-cache-slot",
+                                     "%s.%s: the distinct lazy properties %s all cache their value under the name %r: "
+                                     "each returns whichever of them was read first" %
+                                     (mname, cname, sorted(a for a, _ in distinct), slot)))
+        _LAZY_SLOTS = out
+    return list(_LAZY_SLOTS)
 
 
 def text_resp(values, counts, single=False):
@@ -880,12 +1005,14 @@ def eval_set(case, louts, ctx):
 def generate(ctx):
     rng = ctx.rng
     cases = []
-    for _ in range(ctx.n(800, 8000)):
+    for _ in range(ctx.n(650, 8000)):
         cases.append(gen_hist(rng))
-    for _ in range(ctx.n(130, 1700)):
+    for _ in range(ctx.n(110, 1700)):
         cases.append(gen_api(rng))
     for _ in range(ctx.n(60, 600)):
         cases.append(gen_scale(rng))
+    for _ in range(ctx.n(40, 500)):
+        cases.append(gen_waves(rng))
     for _ in range(ctx.n(80, 600)):
         cases.append(dict(gen_api(rng), t="forms"))
     for _ in range(ctx.n(120, 900)):
